@@ -403,6 +403,59 @@ def _carried_status(prog, f, exit_call):
     return {"adt": adt, "field": fname, "script": script, "other": other}
 
 
+def _classified_status(prog, f, exit_call):
+    """`process::exit(failure.exit_code())`: the status is answered by a small
+    classifier over the failure enum.  The variants that carry a crate error
+    value are the script failures; the constants the classifier answers for
+    them are the script-failure statuses."""
+    import inline
+    if not mir.is_place_operand(exit_call.args[0]):
+        return None
+    cp = [p for p in f.canon_op(exit_call.args[0]) if p not in ("&", "*")]
+    if len(cp) != 1 or cp[0][0] != "call":
+        return None
+    cc = f.call_at(cp[0][1])
+    g = prog.fns.get(cc.res) if cc is not None and not cc.is_ptr else None
+    if g is None or not inline.is_classifier(g):
+        return None
+    sw = None
+    for bb in range(len(g.blocks)):
+        if g.term(bb)["k"] == "switch":
+            info = g.switch_info(bb)
+            if info and info["kind"] == "discr" and g.canon(info["place"])[0] == ("arg", 1):
+                sw = info
+    if sw is None:
+        return None
+    adt = prog.adts.get(sw["enum"])
+    if not adt:
+        return None
+
+    def consts_from(tgt):
+        outs, seen, st = set(), set(), [tgt]
+        while st:
+            x = st.pop()
+            if x in seen:
+                continue
+            seen.add(x)
+            done = False
+            for s_ in g.stmts(x):
+                if s_[0] == "=" and s_[1][0] == 0 and not s_[1][1]:
+                    v_ = mir.const_val(s_[2][1]) if s_[2][0] == "use" and not mir.is_place_operand(s_[2][1]) else None
+                    outs.add(v_)
+                    done = True
+            if not done:
+                st.extend(g.succs(x))
+        return outs
+    cases = dict(sw["cases"])
+    script, other = set(), set()
+    for v in adt["variants"]:
+        vals = consts_from(cases.get(v["name"], sw["otherwise"]))
+        carries_error = any(prog.adts.get(fd["ty"]) is not None and not fd["ty"].startswith(("std::", "core::", "alloc::"))
+                            for fd in v["fields"])
+        (script if carries_error else other).update(vals)
+    return {"adt": sw["enum"], "field": g.path.split("::")[-1] + "()", "script": script, "other": other}
+
+
 def rule_L5(ctx):
     prog = ctx.prog
     r = RuleResult("L5", "failure exit: exactly one stderr write then "
@@ -454,7 +507,7 @@ def rule_L5(ctx):
         carried = None
         if codes == {None} and len(exits) == 1:
             # the status travels in a field of the failure value (`exit(failure.status)`)
-            carried = _carried_status(prog, f, exits[0])
+            carried = _carried_status(prog, f, exits[0]) or _classified_status(prog, f, exits[0])
             if carried is not None:
                 codes = carried["script"] or {None}
                 r.inst("main: exit status read from %s.%s; script failures carry %s, other failures %s"
